@@ -278,6 +278,50 @@ func TestC04(t *testing.T) {
 			c.c04Program(s, "higher-order-call-sites", place(src, drawPlacement(rt)), true, "higher-order")
 		})
 
+		// functions declared before the variables and the sibling functions they use, in every kind of scope
+		// (names are unique, so no enclosing binding competes): a function sees what its scope comes to hold
+		c.Rapid("functions-before-their-variables", n/4, func(rt *rapid.T, s *Sub) {
+			P, V, F, R := bn.KwPrint, bn.KwVar, bn.KwFun, bn.KwReturn
+			var b strings.Builder
+			b.WriteString(V + " kept = [];\n")
+			ns := rapid.IntRange(1, 3).Draw(rt, "scopes")
+			for k := 0; k < ns; k++ {
+				open, close := "{\n", "}\n"
+				switch rapid.IntRange(0, 4).Draw(rt, "scopeKind") {
+				case 1:
+					open = bn.KwIf + " (" + bn.KwTrue + ") {\n"
+				case 2:
+					open = bn.KwFor + " (" + V + fmt.Sprintf(" once%d = 0; once%d < 1; once%d = once%d + 1) {\n", k, k, k, k)
+				case 3:
+					open, close = fmt.Sprintf("%s host%d() {\n", F, k), fmt.Sprintf("}\nhost%d();\n", k)
+				case 4:
+					open = bn.KwWhile + " (" + bn.KwTrue + ") {\n"
+					close = "  " + bn.KwBreak + ";\n}\n"
+				}
+				b.WriteString(open)
+				if rapid.Bool().Draw(rt, "somethingDeclaredFirst") {
+					fmt.Fprintf(&b, "  %s early%d = %d;\n", V, k, k)
+				}
+				fmt.Fprintf(&b, "  %s get%d() { %s cell%d; }\n  %s set%d(x) { cell%d = x; %s cell%d; }\n", F, k, R, k, F, k, k, R, k)
+				if rapid.Bool().Draw(rt, "mutual") {
+					fmt.Fprintf(&b, "  %s ev%d(m) { %s (m == 0) %s %s; %s od%d(m - 1); }\n  %s od%d(m) { %s (m == 0) %s %s; %s ev%d(m - 1); }\n  %s ev%d(%d);\n",
+						F, k, bn.KwIf, R, bn.KwTrue, R, k, F, k, bn.KwIf, R, bn.KwFalse, R, k, P, k, rapid.IntRange(0, 5).Draw(rt, "parity"))
+				}
+				fmt.Fprintf(&b, "  %s cell%d = %d;\n  %s get%d();\n  %s set%d(%d);\n  %s get%d();\n  kept = %s(kept, get%d, set%d);\n", V, k, 10*k+1, P, k, P, k, 10*k+2, P, k, bn.BPush, k, k)
+				if rapid.Bool().Draw(rt, "lateSibling") {
+					fmt.Fprintf(&b, "  %s twice%d() { %s late%d() + late%d(); }\n  %s late%d() { %s cell%d; }\n  %s twice%d();\n", F, k, R, k, k, F, k, R, k, P, k)
+				}
+				b.WriteString(close)
+			}
+			for k := 0; k < 2*ns; k++ {
+				if k%2 == 0 {
+					fmt.Fprintf(&b, "%s kept[%d]();\n", P, k)
+				} else {
+					fmt.Fprintf(&b, "%s kept[%d](%d);\n%s kept[%d]();\n", P, k, 100+k, P, k-1)
+				}
+			}
+			c.c04Program(s, "functions-before-their-variables", place(b.String(), drawPlacement(rt)), true, "functions-first")
+		})
 		c.Rapid("closures-in-loops", n/2, func(rt *rapid.T, s *Sub) {
 			// closures created in loop iterations, recursive calls and blocks: each captures the loop variable (one per
 			// loop statement), a per-iteration local and an outer counter; they are stored in arrays/objects and called
